@@ -681,4 +681,42 @@ Proof.
       destruct (oval (cv c) x =? 0) eqn:E; [apply Z.eqb_eq in E; contradiction|].
       cbn [sres_rel]. repeat split; cbn [cv cs ct]; [exact Hv|lia|]. intros s k _. rewrite S2. apply Hs. intros [].
 Qed.
+Lemma holds_store_ext : forall c st st' g, store_eq st st' -> holds c st g -> holds c st' g.
+Proof.
+  intros c st st' [v op args|s p v|x] H Hh; cbn [holds] in *.
+  - destruct Hh as [R Hh]. split; [exact R|]. rewrite <- Hh. symmetry. apply out1_ext. exact H.
+  - destruct Hh as [R Hh]. split; [exact R|]. intros j Hj. rewrite <- (H s). apply Hh. exact Hj.
+  - exact Hh.
+Qed.
+
+Lemma keep_sound : forall F i i' c c2, all_hold (cv c) (cs c) F -> keep F asz i i' = true -> step X i c = SNext c2 ->
+  all_hold (cv c2) (cs c2) F.
+Proof.
+  intros F i i' c c2 HF K E. unfold keep in K.
+  apply andb_true_iff in K. destruct K as [K K4]. apply andb_true_iff in K. destruct K as [K No].
+  destruct (i_outs i) eqn:Ho; [|discriminate].
+  destruct (store_space (i_op i)) as [s|] eqn:Ss; [|discriminate].
+  destruct (i_args i) as [|v [|p [|? ?]]] eqn:Ha; try discriminate.
+  destruct (store_space_op _ _ Ss) as [Eo Hs']. destruct (store_not_ctl s Hs') as [Hc Hh]. rewrite <- Eo in Hc, Hh.
+  rewrite (step_generic i c Hc Hh) in E. cbn zeta in E. rewrite Eo in E. rewrite (shape_store s Hs') in E.
+  cbn [sh_fail sh_vol andb] in E. rewrite Ho, Ha in E. cbn [bind map] in E. inversion E; subst c2; clear E. cbn [cv cs].
+  destruct (cell_known_sound F _ _ s p v HF K4) as [_ Hcell].
+  intros g Hg. apply (holds_store_ext (cv c) (cs c)); [|apply HF; exact Hg].
+  intros s' k. unfold merge. destruct (wr _ _ s' k) eqn:Wr; [|reflexivity]. cbn [sh_must orb andb].
+  unfold wr in Wr. cbn [sh_wall sh_w in_sps existsb orb] in Wr. rewrite orb_false_r in Wr.
+  unfold in_cr, conc_range in Wr. cbn [cr_sp cr_lo cr_len sr_sp sr_ptr sr_size aget a1 nth] in Wr.
+  apply andb_true_iff in Wr. destruct Wr as [Wr W3]. apply andb_true_iff in Wr. destruct Wr as [W1 W2].
+  apply sp_eqb_eq in W1. subst s'. apply Z.leb_le in W2. apply Z.ltb_lt in W3.
+  replace k with (oval (cv c) p + (k - oval (cv c) p)) by lia.
+  rewrite (ex_store X A asz HE s Hs') by (try apply oval_range; lia).
+  apply Hcell. lia.
+Qed.
+
+Lemma next_facts_sound : forall F i i' c c2, all_hold (cv c) (cs c) F -> wf_store (cs c) -> step X i c = SNext c2 ->
+  all_hold (cv c2) (cs c2) (next_facts true F asz i i').
+Proof.
+  intros F i i' c c2 HF Hwf E. unfold next_facts. destruct (keep F asz i i') eqn:K.
+  - eapply keep_sound; eassumption.
+  - apply (facts_step_sound F i c c2 HF Hwf). left. exact E.
+Qed.
 End Facts.
